@@ -109,7 +109,37 @@ func (e *Engine) GenerateWith(completer Completer) {
 // of completions already in memory. This might produce a bigger/smaller/
 // different completion grid, for example if it's called on terminal resize.
 func (e *Engine) GenerateCached() {
+	// The completer must see the line as it was when the completions were
+	// first generated, that is without the candidate inserted since then.
+	selected := e.selected
+	e.selected = Candidate{}
 	e.GenerateWith(e.cached)
+	e.selected = selected
+
+	if selected.Value == "" {
+		return
+	}
+
+	// The grid is a new one and its selector is unset: put it back on the
+	// inserted candidate, so that cycling resumes from it and not from the start.
+	for _, grp := range e.groups {
+		for posY, row := range grp.rows {
+			for posX, cand := range row {
+				if cand.Value != selected.Value {
+					continue
+				}
+
+				for _, other := range e.groups {
+					other.isCurrent = false
+				}
+
+				grp.isCurrent = true
+				grp.posX, grp.posY = posX, posY
+
+				return
+			}
+		}
+	}
 }
 
 // SkipDisplay avoids printing completions below the
